@@ -3,18 +3,19 @@
 Solver queries over the REAL ray code (mujoco_warp/_src/ray.py), floats are reals:
  eliminate     _ray_eliminate == MuJoCo's mj_ray eligibility rule (excluded body, invisible geom / material, static flag,
                group mask with the group clamped to [0, mjNGROUP-1], mask of all -1 = no group filtering), all arrays symbolic
- select        the brute-force kernel _ray over ngeom <= 3 geoms, executed for a whole thread block in lockstep (block_dim 1, 2
-               and 4; wp.tile = one value per thread, wp.tile_argmin = lowest index of the minimum): with the per-geom
-               intersection results as free symbols (-1 = miss) the written dist / geomid / normal are those of the nearest
-               eligible hit, ties to the lower geom id, (-1, -1, 0) when nothing is hit; the per-geom function is called
-               with this world's pose, this ray's origin / direction and the geom's own size and type
+ select        the brute-force kernel _ray over ngeom <= 3 geoms (thorough: <= 5), executed for a whole thread block in
+               lockstep (block_dim 1, 2 and 4; wp.tile = one value per thread, wp.tile_argmin = lowest index of the minimum):
+               with the per-geom intersection results as free symbols (-1 = miss) the written dist / geomid / normal are those
+               of the nearest eligible hit, ties to the lower geom id, (-1, -1, 0) when nothing is hit, written only at
+               [world, ray]; the per-geom function is called with this world's pose, this ray's origin / direction and the
+               geom's own size and type
  dispatch      ray_geom forwards to the function of the geom type (sphere with size[0]^2), (-1, 0) for other types
- rays          index discipline of _ray (thread (world, ray) reads pnt / vec only at [world % n, ray], bodyexclude at [ray],
-               poses at [world, geom]; writes only [world, ray]) and ray() = rays() with one ray per world (host trace)
- geometry      (checks/rayg_c34.py) _ray_map, _ray_quad, ray_plane, ray_sphere, ray_ellipsoid, ray_cylinder, ray_capsule,
-               ray_box: the returned distance is -1 or the smallest non-negative ray parameter of a surface point (exact
-               nonlinear real arithmetic, MuJoCo's mjMINVAL guards are part of the reference), the normal is the unit outward
-               surface normal at that point
+ rays          column i of rays() == ray() cast for ray i alone: both real host functions run natively, the tiled launch of
+               _ray interpreted for every thread block, symbolic rays / excluded bodies / poses / mask / static flag
+ geometry      (checks/rayg_c34.py) _ray_map, _ray_quad, ray_plane, ray_sphere, ray_ellipsoid, ray_box, ray_cylinder,
+               ray_capsule: the returned distance is -1 or the smallest non-negative ray parameter of a surface point (exact
+               nonlinear real arithmetic, MuJoCo's mjMINVAL guards are part of the reference), the normal is mat @ the unit
+               outward surface normal at that point
 Reference models are validated numerically against mujoco.mj_ray / mj_multiRay / mju_rayGeom inside the check.
 Outside: the BVH-accelerated path (_ray_bvh, Warp BVH built-ins), mesh / hfield / flex rays, float32 rounding, semantics of
 Warp's tile built-ins beyond the stated model.
@@ -589,7 +590,6 @@ def unit_select(n, B):
         veq(vec, "vec", w % shp("vec"), r),
         cmp("==", ty, rd("geom_type", g)),
       )
-      wide = [shp("pnt", 0) >= 2, shp("geom_size", 0) >= 2] if False else []
       ctx.prove(sess, f"per-geom-call/{g}/arguments", good, c["guard"], names={"worldid": w, "rayid": r}, replay=make_rp(sess, z3.And(core.zbool(c["guard"]), z3.Not(core.zbool(good)), rd("geom_type", g) == int(GeomType.SPHERE), *[Dk["p"][g2] == (1 + g2 if g2 == g else -1) for g2 in range(n)], core.zbool(elig[g])), f"args{g}", 0), desc=f"_ray: ray_geom for geom {g} is not called with (geom_xpos[world, g], geom_xmat[world, g], geom_size[world % n, g], pnt[world % n, ray], vec[world % n, ray], geom_type[g])")
 
   return (f"select/ngeom{n}/block{B}", run)
@@ -637,8 +637,24 @@ def unit_dispatch(ctx):
   sess = ctx.session(kt.bg)
   ctx.reach(sess, "twin:reachable", gt == 6)
   got_d, got_n = kt.post("dist_out", 0), [kt.post("normal_out", 0, k=i) for i in range(3)]
-  rp = lib.make_replay(ctx, kt, "checks.wrap_c34:k_ray_geom", "dispatch", "goal", goal="checks.c34:goal_dispatch")
+  rp0 = lib.make_replay(ctx, kt, "checks.wrap_c34:k_ray_geom", "dispatch", "goal", goal="checks.c34:goal_dispatch")
   names = {"geomtype": gt}
+  from checks.geom_c20 import pin_vec
+
+  # a well-conditioned ray / pose for replays: it hits every primitive type (solver models leave unconstrained inputs at 0)
+  nice = z3.And(pin_vec(A["pos"].c, (0, 0, 0)), pin_vec(A["mat"].c, (1, 0, 0, 0, 1, 0, 0, 0, 1)), pin_vec(A["size"].c, (2, "3/2", "1/2")), pin_vec(A["pnt"].c, (-4, "1/4", 3)), pin_vec(A["vec"].c, (1, 0, "-3/4")))
+  current = {}
+
+  def rp(model):
+    res, _, m2 = sess._check([current["neg"], nice])
+    return rp0(m2 if res == "sat" else model)
+
+  _prove = ctx.prove
+
+  def prove(sess_, name, goal, guard=True, **kw):
+    current["neg"] = z3.And(core.zbool(guard), z3.Not(core.zbool(goal)))
+    return _prove(sess_, name, goal, guard, **kw)
+
   if set(calls) != set(PRIMS):
     ctx.error(f"ray_geom calls {sorted(calls)} (expected the six primitive functions)")
     return
@@ -652,11 +668,11 @@ def unit_dispatch(ctx):
       pos, mat, size, pnt, vec = c["args"]
       argok = And(same(pos, A["pos"]), same(mat, A["mat"]), same(size, A["size"]), same(pnt, A["pnt"]), same(vec, A["vec"]))
     res = z3.And(got_d == z3.Real(f"D_{nm}"), *[got_n[i] == z3.Real(f"N_{nm}_{i}") for i in range(3)])
-    ctx.prove(sess, f"{nm}/result-forwarded", res, gt == tv, names=names, replay=rp, desc=f"ray_geom: geom type {tv} does not return the result of {nm}")
-    ctx.prove(sess, f"{nm}/called-iff-type", core.zbool(c["guard"]) == (gt == tv), names=names, replay=rp, desc=f"ray_geom: {nm} is not called exactly for geom type {tv}")
-    ctx.prove(sess, f"{nm}/arguments", argok, c["guard"], names=names, replay=rp, desc=f"ray_geom: {nm} is not called with (pos, mat, size, pnt, vec)" + (" / (pos, size[0]^2, pnt, vec)" if nm == "ray_sphere" else ""))
+    prove(sess, f"{nm}/result-forwarded", res, gt == tv, names=names, replay=rp, desc=f"ray_geom: geom type {tv} does not return the result of {nm}")
+    prove(sess, f"{nm}/called-iff-type", core.zbool(c["guard"]) == (gt == tv), names=names, replay=rp, desc=f"ray_geom: {nm} is not called exactly for geom type {tv}")
+    prove(sess, f"{nm}/arguments", argok, c["guard"], names=names, replay=rp, desc=f"ray_geom: {nm} is not called with (pos, mat, size, pnt, vec)" + (" / (pos, size[0]^2, pnt, vec)" if nm == "ray_sphere" else ""))
   other = z3.And(*[gt != tv for tv in PRIMS.values()])
-  ctx.prove(sess, "other-types/miss", z3.And(got_d == -1, *[got_n[i] == 0 for i in range(3)]), other, names=names, replay=rp, desc="ray_geom: a non-primitive geom type does not return (-1, zero normal)")
+  prove(sess, "other-types/miss", z3.And(got_d == -1, *[got_n[i] == 0 for i in range(3)]), other, names=names, replay=rp, desc="ray_geom: a non-primitive geom type does not return (-1, zero normal)")
 
 
 # ------------------------------------------------------------------------------------------------ rays / ray (host level)
